@@ -497,7 +497,10 @@ def register_subtree(R):
                 A, ln = list_view(rem)
                 listed = z3.Exists([j], z3.And(j >= 0, j < k, sel(A, j) == x))
             if which == "marks-so-far":
-                return z3.And(a.nz() == n, a.uid not in E.entry_uids, z3.ForAll([x], z3.Implies(z3.And(x >= 0, x < n), a.get(x).z == z3.If(listed, z3.IntVal(REMOVAL), x))))
+                # (that the mark array is a private copy is NOT stated here: allocation identity is concrete engine state, and as an
+                # invariant conjunct it made the path vacuous at the loop head when the copy was dropped -- before the store into the
+                # input's id column could fail its frame obligation.  The store / the in-place callee now fail `safety/frame-write`.)
+                return z3.And(a.nz() == n, z3.ForAll([x], z3.Implies(z3.And(x >= 0, x < n), a.get(x).z == z3.If(listed, z3.IntVal(REMOVAL), x))))
 
         return f
 
